@@ -24,8 +24,8 @@ var c17Tree = reg("C17", "c17-tree", checkC17)
 
 var htmlTags = []string{"p", "div", "span", "a", "b", "i", "ul", "li", "table", "tr", "td", "th", "caption", "select", "option",
 	"template", "script", "style", "textarea", "title", "br", "img", "input", "hr", "svg", "math", "foreignObject", "desc", "html", "head", "body",
-	"form", "h1", "nobr", "tbody", "x:y", "svg:rect", "frameset", "noscript", "button", "dd", "mi", "annotation-xml", "o:p:x", "a:b:c", "x:"}
-var htmlAttrs = []string{"id", "class", "xmlns", "xmlns:x", "x:y", "xlink:href", "xml:lang", "xmlns:xlink", "href", "id", "a:b", "definitionurl", "encoding", "xmlnsfoo", "xmlns-x", "xmlns_id", "xml", "xmlnsx:y", "v-on:update:modelvalue", "x-transition:enter:start", "a:b:c", ":x", "x:", "a::b", "@click", "#ref", "[(ngmodel)]"}
+	"form", "h1", "nobr", "tbody", "x:y", "svg:rect", "frameset", "noscript", "button", "dd", "mi", "annotation-xml", "x:"}
+var htmlAttrs = []string{"id", "class", "xmlns", "xmlns:x", "x:y", "xlink:href", "xml:lang", "xmlns:xlink", "href", "id", "a:b", "definitionurl", "encoding", "xmlnsfoo", "xmlns-x", "xmlns_id", "xml", "xmlnsx:y", ":x", "x:", "@click", "#ref", "[(ngmodel)]"}
 var htmlTexts = []string{"text", " ", "x < y", "&amp;", "&lt;b&gt;", "é", "\n", "a b", "]]>", "&#x41;",
 	// carriage returns: literal ones are normalised by the tokenizer, referenced ones are data
 	"a&#13;\nb", "&#xD;&#10;", "a&#13;b", "\r\n", "a\rb", "&#13;", "&#0;", "\x00", "&nbsp;&copy", "&notit;", "&amp", "\t", "\f", "&#128;", "&#x110000;", "𝄞", "\xff"}
